@@ -212,6 +212,10 @@ def run(rep):
     rep.clause("R-C07-exact", "no frame count is computed through usize→f32→usize; the integer division helpers are exact floor / ceiling divisions")
     rep.not_decided += ["the constant in the asynchronous drift bound", "that fixed-input loops emit ⌊…⌋ frames (depends on run-time f64 positions)"]
     rep.trusted += ["syn parser", "sympy", "num_integer::gcd returns the greatest common divisor"]
+    # everything else a working resampler needs (see rules/shares.py: a change that makes the resampler panic, drop frames, corrupt state on a
+    # rejected call or forward a trait-object call wrongly breaks this property as well)
+    import shares as _shares
+    _shares.complete(rep)
     return rep.finish(level="other", explanation=(
         "Sizing identities and carry rules decided by exact algebra on the constructors and adapters: block sizes are exact multiples of the reduced rates, "
         "frames are conserved by the buffered adapters, positions are carried not restarted, and frame arithmetic is exact integer arithmetic."))
